@@ -43,7 +43,8 @@ var c19Fmts = []c19Fmt{
 	{"uri", []string{"uri"}, true},
 }
 
-var c19UnknownExts = []string{"txt", "conf", "bak", "data", "yamlx", "jsn", "", "tar.gz", "YAML2"}
+// (among them beginnings of format names that are not names themselves: an extension names a format or it does not)
+var c19UnknownExts = []string{"txt", "conf", "bak", "data", "yamlx", "jsn", "", "tar.gz", "YAML2", "js", "ts", "cs", "pro", "b", "u", "to", "lu", "xm", "ya", "jso", "tom", "prop", "she", "base"}
 
 // sample renders one small value in the given format.
 func (c *c19ctx) sample(f string) (text string, v *ref.V) {
